@@ -1,4 +1,4 @@
-CONSTANTS Peers = {1, 2}  Racy = FALSE  MsgsPerPeer = 2
+CONSTANTS Peers = {1, 2}  Racy = FALSE  Connect = FALSE  MsgsPerPeer = 2
 KindSet = {"ping", "version", "verack", "inv", "addr", "unknown"}
 SPECIFICATION Spec
 INVARIANT TypeOK
